@@ -172,9 +172,23 @@ Definition options_valid (ep : endpoint) : bool :=
 
 (* ---------- numbers in a bbox ---------- *)
 
-(* OSM stores coordinates with 7 decimal places; a transmitted coordinate is faithful when it
-   differs from the argument by at most half a unit of that resolution:
-     | (-1)^qn * num / 10^k  -  (-1)^neg * m * 2^e |  <=  1 / (2 * 10^7)   *)
+(* RESOLUTION ASSUMPTION OF THIS SPECIFICATION.  The property text asks for "the documented API
+   v0.6 path for its ARGUMENTS"; for a bounding box the arguments are four float64 numbers and
+   the documentation (wiki.openstreetmap.org/wiki/API_v0.6, "Retrieving map data by bounding
+   box: GET /api/0.6/map?bbox=left,bottom,right,top" — "left is the longitude of the left
+   (westernmost) side of the bounding box", ...) says the URL carries those numbers.  A decimal
+   text cannot carry every float64 exactly in a useful length, so the specification has to say
+   at which resolution "the same number" is meant.  It takes the resolution of OSM coordinates
+   themselves: the wiki page "Node" ("Latitude ... decimal number >= -90.0000000 and <= 90.0000000
+   with 7 decimal places", likewise longitude) and the API's own XML, which prints lat/lon with 7
+   decimals; the database stores integers of 10^-7 degree.  A transmitted coordinate is faithful
+   when it differs from the argument by at most half a unit of that resolution:
+     | (-1)^qn * num / 10^k  -  (-1)^neg * m * 2^e |  <=  1 / (2 * 10^7)
+   Two boxes that differ by less contain the same OSM elements; boxes that differ in the 7th
+   decimal need not.  This choice is NOT in the property text; it is recorded as an assumption in
+   checks.d/C20.json and in the finding's entry.  Under a coarser choice (six decimals) the
+   package's former %f formatting was already faithful (C20_percent_f_is_lossy shows it is not
+   at seven). *)
 Definition coord_within (inv_tol : Z) (x : fl) (q : bool * Z * nat) : bool :=
   let '(qn, num, k) := q in
   (f_class x =? 0) &&
@@ -279,7 +293,9 @@ Definition spec_result (ep : endpoint) (resp : response) : expected :=
         if count_kind k els =? 1 then XData (filter (fun e => fst e =? k) els) else XErr COther
     | BOsm els, Many k => XData (filter (fun e => fst e =? k) els)
     | BOsm els, Whole => XData (by_kind els)
-    | BOsm _, WholeChange => XData []              (* no create/modify/delete sections *)
+    | BOsm _, WholeChange => XData []              (* no create/modify/delete sections; NB: that a document with another root element is
+                                                      accepted at all (here and in the next two lines) is what encoding/xml does with these
+                                                      structs (no XMLName), not something the API documents; the API never answers so *)
     | BChange _ _ _, One _ => XErr COther          (* an osmChange document has no top-level elements *)
     | BChange _ _ _, (Many _ | Whole) => XData []
     | BChange c m d, WholeChange => XData (tagged 1 c ++ tagged 2 m ++ tagged 3 d)
